@@ -151,6 +151,9 @@ def canonLoop : Bool → Bytes → Bytes
 /-- `textproto.CanonicalMIMEHeaderKey`: a key with any non-token byte is returned unchanged -/
 def canonKey (s : Bytes) : Bytes := if s.all tokenByte then canonLoop true s else s
 
+/-- `strings.ToUpper` on ASCII -/
+def asciiUpper (s : Bytes) : Bytes := s.map (fun c => if 97 ≤ c && c ≤ 122 then c - 32 else c)
+
 /-! ### http.Header -/
 
 /-- `map[string][]string`; a value `none` is Go's `nil` slice stored under the key -/
